@@ -76,10 +76,18 @@ def loop_traces(ctx, insts, name, **dims):
     env.pop("NUMBA_CACHE_DIR", None)
     r = subprocess.run(["/venv/bin/python", "-m", "vt.looptrace", ip, op], env=env, capture_output=True, text=True,
                        cwd=harness.VERIF, timeout=1800)
+    if r.returncode == 3:
+        # loop head / locals not found: the kernel was rewritten.  Conformance drift, not a verdict on the tallies
+        # (the replay legs judge the arrays the kernel returns).
+        last = (r.stderr.strip().splitlines() or ["?"])[-1]
+        ctx.count("loop_head_recorder_drift")
+        print(f"CONFORMANCE-DRIFT property=C24 loop-head recorder of _count_mutations: {last[:300]}")
+        return
     if r.returncode != 0:
-        if "AssertionError" in r.stderr or "Error" in r.stderr.splitlines()[-1:][0:1].__str__():
+        last = (r.stderr.strip().splitlines() or ["?"])[-1]
+        if "/tsdate/" in r.stderr and ("Error" in last or "Exception" in last):
             ctx.violation("C24/looptrace/kernel-raised", {"stderr": r.stderr[-800:]},
-                          "_count_mutations raised under the loop-head recorder: " + r.stderr[-300:], subcheck="loop")
+                          "_count_mutations (JIT off) raised under the loop-head recorder: " + r.stderr[-300:], subcheck="loop")
             return
         raise harness.MachineryError("loop-head recorder failed: " + r.stderr[-1500:])
     cfg = ctx.write_cfg(f"{name}.cfg", spec="TraceSpec", constants=sc.consts(**dims))
